@@ -31,8 +31,8 @@ TRUSTED = ["harness OPC oracle (independent re-implementation of OPC lookup sema
 
 CT_NS = "http://schemas.openxmlformats.org/package/2006/content-types"
 REL_NS = "http://schemas.openxmlformats.org/package/2006/relationships"
-SEGS = ["ppt", "slides", "media", "a", "b", "docProps", "x.y", "Deep"]
-FILES = ["p1.xml", "p2.xml", "data.bin", "other.bin", "third.bin", "img.png", "IMG2.PNG", "pic.jpg", "blob.dat", "noext", "s1.xml", "s2.xml", "movie.mp4"]
+SEGS = ["ppt", "slides", "slidesX", "media", "a", "ab", "b", "docProps", "x.y", "Deep"]
+FILES = ["p1.xml", "p2.xml", "data.bin", "other.bin", "third.bin", "UPPER.BIN", "Mixed.Bin", "img.png", "IMG2.PNG", "pic.jpg", "blob.dat", "noext", "s1.xml", "s2.xml", "movie.mp4"]
 NEUTRAL = ["application/x-verif-a", "application/x-verif-b", "application/x-verif+xml"]
 RT = "http://example.com/rel/%s"
 
